@@ -64,6 +64,10 @@ PROGRAMS = {
     'stop-other': dict(routines=[dict(seed=1, steps=['log', 'stop', 'log']),
                                  dict(seed=2, steps=['log', 'send', 'log'])]),
     'spawn': dict(routines=[dict(seed=5, steps=['rand', 'spawn', 'rand', 'log'])]),
+    'sched-function': dict(routines=[dict(seed=1, steps=['log', 'schedfn', 'send', 'log'])], sym=9),
+    'neg-latency': dict(routines=[dict(seed=1, steps=['log', 'sendneg', 'send', 'sendneg'])], sym=9),
+    'bool-yield': dict(routines=[dict(seed=1, steps=['log', 'send', 'ybool', 'send']),
+                                 dict(seed=2, steps=['log', 'send', 'log'])]),
     'reseed': dict(routines=[dict(seed=9, steps=['rand', 'seed', 'rand']), dict(seed=9, steps=['rand', 'rand'])]),
 }
 THOROUGH_PROGRAMS = {
@@ -140,6 +144,21 @@ class Prog:
                     log.append((('step', i, k, op), [clock.seconds - S, clock.beats - B0]))
                     if op == 'send':
                         addr.send_bundle(self.L, ['/x', i, k])
+                    elif op == 'sendneg':
+                        # negative latency = "as soon as possible": stamped immediately in RT, listed at the logical
+                        # time of the send in NRT
+                        addr.send_bundle(-1.0 - self.L, ['/x', i, k])
+                    elif op == 'schedfn':
+                        # a plain function scheduled on the clock: it logs its logical time and sends a bundle
+                        def mkfn(i_, k_):
+                            def fn_():
+                                log.append((('fn', i_, k_), [clock.seconds - S, clock.beats - B0]))
+                                addr.send_bundle(self.L, ['/x', i_, k_])
+                            return fn_
+                        clock.sched(self.cd[0], mkfn(i, k))
+                    elif op == 'ybool':
+                        yield True          # not a number: the routine is not rescheduled, in either mode
+                        continue
                     elif op == 'rand':
                         draws(('rand', i, k))
                         for _ in range(self.draws_extra.get(i, 0)):
@@ -415,22 +434,50 @@ def rt_scenario(ctx, j, summaries):
             k = 0
             for tag, n in shape:
                 for q in range(n):
+                    df = terms[k] - z3.Real(f'nrt_o{k}')
                     obligations.append((terms[k] == z3.Real(f'nrt_o{k}'),
                                         f'{tag}: value {q} differs between NRT and RT (logical time / beats relative '
-                                        f'to the program start, or a drawn value)', 'value'))
+                                        f'to the program start, or a drawn value)', 'value',
+                                        z3.Or(df >= 0.01, df <= -0.01)))
                     k += 1
+            step_time = {}
+            k = 0
+            for tag, n in shape:
+                if tag[0] == 'step':
+                    step_time[(tag[1], tag[2])] = k          # index of the step's logical seconds (relative)
+                k += n
             for b, idx in p['bundles']:
                 tt = sent[json.dumps(b)]
+                if z3.is_int_value(tt) and tt.as_long() == 1:
+                    # stamped "immediately" in RT (negative latency): NRT lists it at the logical time of the send
+                    key = (b[0][1], b[0][2])
+                    df = z3.Real(f'nrt_o{idx}') - terms[step_time[key]]
+                    obligations.append((z3.Real(f'nrt_o{idx}') == terms[step_time[key]],
+                                        f'bundle {b}: sent "immediately" in RT but not listed at the logical time of '
+                                        f'the send in NRT', 'bundle-time', z3.Or(df >= 0.01, df <= -0.01)))
+                    continue
                 want = (S + z3.Real(f'nrt_o{idx}')) * TWO32 + offset
+                big = z3.RealVal(2 ** 32 // 100)
                 obligations.append((z3.And(z3.ToReal(tt) - want <= 1, want - z3.ToReal(tt) <= 1),
                                     f'bundle {b}: RT timetag is not program start + NRT time (+/- one timetag unit)',
-                                    'bundle-time'))
+                                    'bundle-time', z3.Or(z3.ToReal(tt) - want >= big, want - z3.ToReal(tt) >= big)))
             allc = z3.And(*[o[0] for o in obligations]) if obligations else z3.BoolVal(True)
             if ctx.valid(allc):
                 ctx.obligations += len(obligations)
                 ctx.discharged += len(obligations)
             else:
-                for c, what, sub in obligations:
+                for c, what, sub, visible in obligations:
+                    if ctx.valid(c):
+                        continue
+                    # prefer a counterexample whose discrepancy is visible to a concrete replay (>= 10 ms)
+                    ctx.solver.push()
+                    ctx.solver.add(z3.Not(c), visible)
+                    r = ctx._check()
+                    m = ctx.solver.model() if r == z3.sat else None
+                    ctx.solver.pop()
+                    ctx._model = None
+                    if m is not None:
+                        raise Violation(what, m, data(sub))
                     ctx.prove(c, what, data(sub))
         finally:
             ctx.solver.pop()
@@ -559,6 +606,12 @@ def replay(rec):
     if sorted(rt['bundles']) != sorted(nrt['bundles']):
         return f'bundles differ: NRT {sorted(nrt["bundles"])} / RT {sorted(rt["bundles"])}'
     for k, tt in rt['bundles'].items():
+        if tt == 1:
+            b = json.loads(k)
+            st = [v[0] for t, v in rt['log'] if t[0] == 'step' and t[1] == b[0][1] and t[2] == b[0][2]]
+            if st and abs(nrt['bundles'][k] - st[0]) > 1e-6 * max(1.0, abs(st[0])):
+                return f'bundle {k}: sent "immediately" in RT at logical time {st[0]}, listed at {nrt["bundles"][k]} in NRT'
+            continue
         want = (S + nrt['bundles'][k]) * 2 ** 32 + rt['offset']
         if abs(tt - want) > 2 ** 32 * 1e-6 * max(1.0, S):
             return f'bundle {k}: RT timetag differs from program start + NRT time by {(tt - want) / 2 ** 32} s'
